@@ -30,6 +30,8 @@ type Extra struct {
 	Run       func(w *engine.W, blk int, thorough bool, deadline time.Time)
 	Replay    func(k Case) *engine.Failure
 	Fold      func(c *engine.Check, hist map[string]int64)
+	// Traces: model traces (transitions / executions) this family validated against the implementation
+	Traces func(hist map[string]int64) int64
 }
 
 // Extras are appended to the scenario blocks by Main.
@@ -192,7 +194,13 @@ func Main(c *engine.Check, scenarios []*vrt.Scenario, boundQuick, boundThorough 
 	c.NontrivialN(int64(distinct))
 	c.Extra["states"] = execs + decisions // nodes of the explored schedule tree: complete schedules + interior decision nodes
 	c.Extra["transitions"] = decisions
-	c.Extra["traces_validated_against_impl"] = execs
+	validated := execs
+	for _, x := range Extras {
+		if x.Traces != nil {
+			validated += x.Traces(h)
+		}
+	}
+	c.Extra["traces_validated_against_impl"] = validated
 	c.Extra["executions"] = execs
 	c.Extra["executions_per_scenario"] = perScenario
 	c.Extra["distinct_outcomes_per_scenario"] = oc
